@@ -310,6 +310,10 @@ type Explorer struct {
 	firstRuns   [][]int
 	captureKeys bool
 	keys        []string
+	// ExtremesOnly enumerates only the first and last element at every Input choice point.
+	ExtremesOnly bool
+	// MaxExec stops the enumeration after this many executions (0 = no limit); hitting it is a cap.
+	MaxExec int64
 }
 
 // NewExplorer builds an explorer. shard/nshards select a slice of the tree:
@@ -376,6 +380,11 @@ func (e *Explorer) next(tr []point) ([]int, int) {
 		if p.c+1 >= p.n {
 			continue
 		}
+		step := 1
+		if e.ExtremesOnly && p.kind == Input {
+			// cross-section mode: only the first and the last element of every input alphabet
+			step = p.n - 1 - p.c
+		}
 		if p.c == 0 { // incrementing creates a new deviation at i
 			env, in := devCount(tr, i)
 			if p.kind == Input {
@@ -392,7 +401,7 @@ func (e *Explorer) next(tr []point) ([]int, int) {
 		for j := 0; j < i; j++ {
 			np[j] = tr[j].c
 		}
-		np[i] = p.c + 1
+		np[i] = p.c + step
 		return np, i
 	}
 	return nil, -1
@@ -413,6 +422,11 @@ func (e *Explorer) Explore() {
 				pf = pf[:120] + "…"
 			}
 			st.CapNotes = append(st.CapNotes, fmt.Sprintf("deadline hit after %d executions; next prefix %s", st.Executions, pf))
+			break
+		}
+		if e.MaxExec > 0 && st.Executions >= e.MaxExec {
+			st.Exhaustive = false
+			st.CapNotes = append(st.CapNotes, fmt.Sprintf("execution cap %d hit", e.MaxExec))
 			break
 		}
 		doSelf := checked < e.selfCheck
